@@ -52,10 +52,14 @@ RECURSIVE Build(_, _)
 Build(toks, s) == IF s.err # "none" \/ s.i > Len(toks) THEN s ELSE Build(toks, Step(toks, s))
 
 \* prioritized_indices_flat: stable sort, descending key
+\* nearest operator to the left of j whose priority is not strictly higher (0 if none)
+RECURSIVE LeftRun(_, _, _)
+LeftRun(b, j, k) == IF k = 0 THEN 0 ELSE IF b.ops[k].prio > b.ops[j].prio THEN LeftRun(b, j, k - 1) ELSE k
 Key(b, j) ==
-  LET bump == b.ops[j].comm /\ b.nodes[j].kind = "num" /\ b.nodes[j + 1].kind = "num"
+  LET l == LeftRun(b, j, j - 1)
+      bump == b.ops[j].comm /\ b.nodes[j].kind = "num" /\ b.nodes[j + 1].kind = "num"
               /\ (BumpGuard => /\ Len(b.ops[j].un) = 0
-                               /\ (j = 1 \/ b.ops[j - 1].prio # b.ops[j].prio \/ b.ops[j - 1].name = b.ops[j].name))
+                               /\ (l = 0 \/ b.ops[l].prio < b.ops[j].prio \/ b.ops[l].name = b.ops[j].name))
   IN b.ops[j].prio * 10 + (IF bump THEN 5 ELSE 0)
 Before(b, j1, j2) == Key(b, j1) > Key(b, j2) \/ (Key(b, j1) = Key(b, j2) /\ j1 < j2)
 Order(b) == LET n == Len(b.ops) IN
